@@ -455,6 +455,30 @@ def _fake_modules():
             return _rtime.time()
         return ctl.tick()
     tm.time = _time
+
+    # The clocks whose reference point is undefined (`time.monotonic`, `time.perf_counter`: "only the difference between
+    # the results of two calls is valid") restart with every controlled execution: an execution stands for one process,
+    # and the next one may run after a reboot or on another machine.  Only `time.time` is comparable between runs.
+    def _mono():
+        ctl = CTL
+        if ctl is None or not ctl.active:
+            return _rtime.monotonic()
+        return ctl.tick() - getattr(ctl, 'mono_origin', 0)
+
+    def _mono_ns():
+        ctl = CTL
+        if ctl is None or not ctl.active:
+            return _rtime.monotonic_ns()
+        return int(ctl.tick() - getattr(ctl, 'mono_origin', 0)) * 1000000000
+
+    def _time_ns():
+        ctl = CTL
+        if ctl is None or not ctl.active:
+            return _rtime.time_ns()
+        return int(ctl.tick()) * 1000000000
+    tm.monotonic = tm.perf_counter = _mono
+    tm.monotonic_ns = tm.perf_counter_ns = _mono_ns
+    tm.time_ns = _time_ns
     return th, qm, tm
 
 
